@@ -194,12 +194,21 @@ def nonflat_rejected():
     from distributed_shampoo.utils.shampoo_hsdp_distributor import HSDPDistributor
 
     out = []
+    # shards of every non-flat kind, empty ones included (a rank that owns nothing of a parameter still holds a FLAT empty shard)
+    shapes = ((2, 3), (1, 1), (0, 3), (2, 0), (0, 0, 5), (), (1, 2, 1))
     for cls in (FSDPDistributor, HSDPDistributor):
-        try:
-            cls._split_tensor_block_recovery(torch.zeros((2, 3)), torch.Size((2, 3)), 0, 6)
-            out.append("accepted")
-        except ValueError:
-            out.append("ValueError")
+        verdict = "ValueError"
+        for shp in shapes:
+            numel = 1
+            for d in shp:
+                numel *= d
+            try:
+                cls._split_tensor_block_recovery(torch.zeros(shp), torch.Size(shp if shp else (1,)), 0, numel)
+                verdict = f"accepted shape {shp}"
+                break
+            except ValueError:
+                pass
+        out.append(verdict)
     return out
 
 
